@@ -414,7 +414,38 @@ pub fn run_fmachine(a: &Args, out: &mut Out) {
     let rb = { let mut v = (-Fr::one()).to_slice().to_vec(); for i in (0..32).rev() { v[i] = v[i].wrapping_add(1); if v[i] != 0 { break; } } v };
     let qb = { let mut v = (-Fq::one()).to_slice().to_vec(); for i in (0..32).rev() { v[i] = v[i].wrapping_add(1); if v[i] != 0 { break; } } v };
     out.call("m.init", json!({"n": NFREG}), || outs! {});
+    let mut tick = 0u64;
     while !out.full() {
+        tick += 1;
+        if tick % 8 == 0 {
+            // inject a designated Montgomery-boundary pair (TLC-generated) into two registers and combine them; the
+            // results stay in the register file and are used by the random operations that follow
+            let fr_turn = tick % 16 == 0;
+            if fr_turn {
+                let (xa, xb) = poolr.pairs[rng.gen_range(0..poolr.pairs.len())].clone();
+                let (i, j, d) = (0usize, 1usize, rng.gen_range(0..NF));
+                out.call("mf", json!({"T": "Fr", "d": FRB + i, "fn": "from_slice", "in": b(&xa), "via": "from_slice"}), || { fr[i] = Fr::from_slice(&xa); f_obs!(fr, FRB, i) });
+                out.call("mf", json!({"T": "Fr", "d": FRB + j, "fn": "from_slice", "in": b(&xb), "via": "from_slice"}), || { fr[j] = Fr::from_slice(&xb); f_obs!(fr, FRB, j) });
+                let f = ["add", "sub", "mul"][rng.gen_range(0..3)];
+                out.call("mf", json!({"T": "Fr", "d": FRB + d, "fn": f, "a": FRB + i, "b": FRB + j}), || {
+                    let (p, q) = (fr[i].unwrap(), fr[j].unwrap());
+                    fr[d] = Some(match f { "add" => p + q, "sub" => p - q, _ => p * q });
+                    f_obs!(fr, FRB, d)
+                });
+            } else {
+                let (xa, xb) = poolq.pairs[rng.gen_range(0..poolq.pairs.len())].clone();
+                let (i, j, d) = (0usize, 1usize, rng.gen_range(0..NF));
+                out.call("mf", json!({"T": "Fq", "d": FQB + i, "fn": "from_slice", "in": b(&xa), "via": "from_slice"}), || { fq[i] = Fq::from_slice(&xa); f_obs!(fq, FQB, i) });
+                out.call("mf", json!({"T": "Fq", "d": FQB + j, "fn": "from_slice", "in": b(&xb), "via": "from_slice"}), || { fq[j] = Fq::from_slice(&xb); f_obs!(fq, FQB, j) });
+                let f = ["add", "sub", "mul"][rng.gen_range(0..3)];
+                out.call("mf", json!({"T": "Fq", "d": FQB + d, "fn": f, "a": FQB + i, "b": FQB + j}), || {
+                    let (p, q) = (fq[i].unwrap(), fq[j].unwrap());
+                    fq[d] = Some(match f { "add" => p + q, "sub" => p - q, _ => p * q });
+                    f_obs!(fq, FQB, d)
+                });
+            }
+            continue;
+        }
         let which = rng.gen_range(0..10);
         if which < 5 {
             // ---------------- Fr
